@@ -51,4 +51,56 @@ macro_rules
         fin_crash, mk_c, crash_c, fire_c, pre_c, ↓reduceIte, Bool.false_eq_true, reduceCtorEq] <;>
        (repeat' split) <;> inv_close $d))
 
+set_option maxHeartbeats 8000000 in
+theorem inv_resume (d : Core) (k : K) (ok peek dr0 : Bool)
+    (h : InvB { d with paused := some k, draining := dr0 } = true) (hp : d.paused = none) (hb : d.bad = false) :
+    InvB (W.fin true (resume d k ok peek)).c = true := by
+  cases k
+  case peErr r ret => cases r <;> cases ret <;> inv_tree d
+  case streamConn b => cases b <;> inv_tree d
+  case cbsHdr b => cases b <;> inv_tree d
+  case cbsErr b => cases b <;> inv_tree d
+  all_goals inv_tree d
+set_option maxHeartbeats 8000000 in
+theorem inv_reqErr (d : Core) (peek q x0 dr0 : Bool)
+    (h : InvB { d with procReqErr := x0, draining := dr0 } = true) (hp : d.paused = none) (hb : d.bad = false)
+    (hpt : d.pt = false) (hX : d.procReqErr = true) (hdr : d.draining = q) (hq : q = true → dr0 = true) :
+    InvB (W.fin q (handlePE d false .top peek)).c = true := by
+  inv_tree d
+
+set_option maxHeartbeats 8000000 in
+theorem inv_respErr (d : Core) (peek q dr0 : Bool)
+    (h : InvB { d with draining := dr0 } = true) (hp : d.paused = none) (hb : d.bad = false)
+    (hpt : d.pt = false) (hA : d.attached = true) (hdr : d.draining = q) (hq : q = true → dr0 = true) :
+    InvB (W.fin q (handlePE d true .top peek)).c = true := by
+  inv_tree d
+set_option maxHeartbeats 16000000 in
+theorem inv_reqHeaders (d : Core) (e : Bool) (kind : ReqKind) (ws : Bool) (v : Verdict) (q dr0 : Bool)
+    (h : InvB { d with seenReqHdr := false, draining := dr0 } = true) (hp : d.paused = none) (hb : d.bad = false)
+    (hpt : d.pt = false) (hS : d.seenReqHdr = true) (hG : d.stale = true ∨ d.procReqErr = false)
+    (hdr : d.draining = q) (hq : q = true → dr0 = true) :
+    InvB (W.fin q (clientEvent d (.reqHeaders e kind ws v))).c = true := by
+  cases hcs : d.cs <;> cases kind <;> cases v <;> cases e <;> simp only [clientEvent, hcs] <;> inv_tree d
+
+set_option maxHeartbeats 16000000 in
+theorem inv_reqBody (d : Core) (ev : AEv) (hev : (∃ v, ev = .reqData v) ∨ (∃ ne, ev = .reqEOM ne)) (q dr0 : Bool)
+    (h : InvB { d with draining := dr0 } = true) (hp : d.paused = none) (hb : d.bad = false)
+    (hpt : d.pt = false) (hG : d.stale = true ∨ d.procReqErr = false)
+    (hdr : d.draining = q) (hq : q = true → dr0 = true) :
+    InvB (W.fin q (clientEvent d ev)).c = true := by
+  rcases hev with ⟨v, rfl⟩ | ⟨ne, rfl⟩
+  · cases hcs : d.cs <;> cases v <;> simp only [clientEvent, hcs] <;> inv_tree d
+  · cases hcs : d.cs <;> simp only [clientEvent, hcs] <;> inv_tree d
+set_option maxHeartbeats 16000000 in
+theorem inv_respEvent (d : Core) (ev : AEv)
+    (hev : (∃ e k v, ev = .respHeaders e k v) ∨ (∃ v, ev = .respData v) ∨ (∃ ne, ev = .respEOM ne)) (q dr0 : Bool)
+    (h : InvB { d with draining := dr0 } = true) (hp : d.paused = none) (hb : d.bad = false)
+    (hpt : d.pt = false) (hA : d.attached = true)
+    (hdr : d.draining = q) (hq : q = true → dr0 = true) :
+    InvB (W.fin q (serverEvent d ev)).c = true := by
+  rcases hev with ⟨e, k, v, rfl⟩ | ⟨v, rfl⟩ | ⟨ne, rfl⟩
+  · cases hss : d.ss <;> cases k <;> cases v <;> cases e <;> simp only [serverEvent, hss] <;> inv_tree d
+  · cases hss : d.ss <;> cases v <;> simp only [serverEvent, hss] <;> inv_tree d
+  · cases hss : d.ss <;> simp only [serverEvent, hss] <;> inv_tree d
+
 end MitmVerif.C03
